@@ -68,6 +68,12 @@ def run(ctx):
         for p, l, r in zip(progs, lines, ref):
             dist["runs"] += 1
             a, b = canon(l, n == 1), canon(r, n == 1)
+            if not l.startswith("ok ") and not r.startswith("ok "):
+                # the program makes the simulator abort under the reference configuration too (a defect of another
+                # property: e.g. suspend/resume of an actor blocked on a synchro): how it dies (signal, time-out) is not
+                # an observable result of the simulation and is not compared
+                dist["both_abort"] = dist.get("both_abort", 0) + 1
+                continue
             if a != b:
                 kind = "crash" if not l.startswith("ok ") else ("deadlock-report" if l.split("|")[0].split()[1] != r.split("|")[0].split()[1] else "log")
                 ctx.fail("config-dependent-%s" % kind,
